@@ -24,6 +24,16 @@ original's, (b) that the original is untouched by saving and loading (frame), (c
 agents share a cell.  On a disagreement the model is re-run with `Fill.init` on the cells no state dict
 lists, to tell whether the implementation behaves like the *unrepaired* model (D3 / D22).
 
+Suite `checkpoint-helpers` (helper bodies, tied to Gen/CkptHelpGen.lean = Model/HeapCkpt.lean `Mod`): per network
+module the names `get_detached_tensors` collects = an independent walk (walker.module_tensors) minus `state_dict()`
+keys; every tensor (registered or not, one stamp per storage) gets a distinct value, save, both load paths, every
+tensor read back; the helper pair alone on module level; hand-made nested modules (plain tensor attribute two levels
+down, a parameter swapped for a plain tensor, wrong shape / missing name skipped, missing sub-module -> AttributeError,
+None / {}), `_orig_mod.` key sets for `remove_compile_prefix`.
+Wrapped agents are built with every constructor option of the wrapper NON-default (`RSNorm:{"epsilon": …}`); the wrapper
+state is compared attribute by attribute over `__dict__` / slots (`canon_deep`, immutable options included) and by
+what it computes (`normalize_*` on a small-variance probe batch).
+
 Oracle (the statement itself, independent of Lean): hyper-parameters, bookkeeping, registry, init_dicts,
 every tensor of every network (targets and detached copies included), optimizer moments / steps / options
 are equal; greedy actions on sampled observations are equal; k = 1..3 learn steps on identical batches
@@ -187,6 +197,90 @@ def canon(v, depth=0):
     return type(v).__name__ + ":" + walker.group_value({"cells": cells})
 
 
+def wrapper_spec(wrapper: str):
+    """'RSNorm' | 'RSNorm:{"epsilon": 0.25, ...}' -> (class name, constructor options)"""
+    name, _, opts = wrapper.partition(":")
+    return name, (json.loads(opts) if opts else {})
+
+
+def wrap_agent(agent, wrapper: str):
+    import agilerl.wrappers.agent as W
+    name, opts = wrapper_spec(wrapper)
+    return getattr(W, name)(agent, **opts)
+
+
+def wrapper_options(rng: random.Random, name: str, family: str) -> str:
+    """every documented constructor option of the wrapper set to a NON-default value (drawn)"""
+    if name != "RSNorm":
+        return name
+    opts = {"epsilon": rng.choice([0.015625, 0.25, 2.0])}
+    if family == "dict":
+        opts["norm_obs_keys"] = ["vec"]
+    return name + ":" + json.dumps(opts, sort_keys=True)
+
+
+def canon_deep(v, depth=0):
+    """like `canon`, but a plain object is described by ALL its attributes (`__dict__` and slots, recursively):
+    immutable ones (a float option such as an epsilon) count as state too"""
+    if isinstance(v, float) and v != v:
+        return "nan"
+    if isinstance(v, (torch.device, torch.dtype)):
+        return str(v)
+    if walker.is_immutable(v):
+        return repr(v)
+    if isinstance(v, torch.Tensor):
+        return "T" + walker.tensor_value(v)
+    if isinstance(v, np.ndarray):
+        return "A" + walker._h(v.tobytes() + str(v.shape).encode() + str(v.dtype).encode())
+    if depth > 5:
+        return type(v).__name__
+    if isinstance(v, dict):
+        return {repr(k): canon_deep(x, depth + 1) for k, x in v.items()}
+    if isinstance(v, (list, tuple)):
+        return [canon_deep(x, depth + 1) for x in v]
+    if callable(v) or isinstance(v, torch.nn.Module):
+        return canon(v, depth)
+    names = list(getattr(v, "__dict__", {}).keys())
+    for c in type(v).__mro__:
+        names += [n for n in getattr(c, "__slots__", ()) if isinstance(n, str) and hasattr(v, n)]
+    if not names:
+        return canon(v, depth)
+    return {"__class__": type(v).__name__, **{n: canon_deep(getattr(v, n), depth + 1) for n in sorted(set(names))}}
+
+
+def probe_obs(space, n: int = 4):
+    """a deterministic batch of observations with SMALL variance (a sixteenth of a unit around 0), so that an
+    additive constant under the square root of a normaliser matters; None for spaces without a float batch"""
+    from gymnasium import spaces
+    if isinstance(space, spaces.Box):
+        k = int(np.prod(space.shape)) if space.shape else 1
+        return (torch.linspace(-1.0, 1.0, n * k).reshape((n,) + tuple(space.shape)) / 16.0).to(torch.float32)
+    if isinstance(space, spaces.Dict):
+        out = {k: probe_obs(sp, n) for k, sp in space.spaces.items()}
+        return None if any(x is None for x in out.values()) else out
+    if isinstance(space, spaces.Tuple):
+        out = tuple(probe_obs(sp, n) for sp in space.spaces)
+        return None if any(x is None for x in out) else out
+    return None
+
+
+def wrapper_behaviour(agent) -> dict:
+    """what the wrapper computes from its statistics: every public `normalize_*` method on the probe batch"""
+    out = {}
+    try:
+        probe = probe_obs(agent.observation_space)
+    except Exception:
+        probe = None
+    if probe is None or isinstance(agent.observation_space, dict):
+        return out
+    for name in sorted(n for n in dir(type(agent)) if n.startswith("normalize_")):
+        try:
+            out["wrapfn:" + name] = canon(getattr(agent, name)(copy.deepcopy(probe)))
+        except Exception as e:
+            out["wrapfn:" + name] = f"raises {type(e).__name__}"
+    return out
+
+
 def plain_state(agent) -> dict:
     """everything the statement lists that is not a tensor of a network / optimizer"""
     from agilerl.algorithms.core.base import EvolvableAlgorithm
@@ -218,6 +312,8 @@ def plain_state(agent) -> dict:
             if k in ("agent", "agent_get_action", "agent_learn", "training", "device"):
                 continue
             out["wrap:" + k] = canon(v)
+            out["wrapdeep:" + k] = canon_deep(v)      # all attributes of the statistics objects, immutable ones too
+        out.update(wrapper_behaviour(agent))
     return out
 
 
@@ -302,9 +398,8 @@ class Case:
                 kw.update(gamma=0.9)
         ag = A.build(self.algo, self.family, seed=seed, share_encoders=self.share,
                      hp_config=A.default_hp_config(self.algo), index=7 if other else 0, **kw)
-        if self.wrapper == "RSNorm":
-            from agilerl.wrappers.agent import RSNorm
-            ag = RSNorm(ag)
+        if self.wrapper:
+            ag = wrap_agent(ag, self.wrapper)
         return ag
 
     # ---- one history operation on a real agent (returns the agent: mutation / reclone replace it)
@@ -711,11 +806,12 @@ def case_list(chk: Check):
     for wi, algo in enumerate(wrapped):
         # wrapped agents: at least two generations, the wrapper's statistics move between them
         hows = ["inplace", "load"] if wi % 2 == 0 else ["load", "inplace"]
+        wspec = wrapper_options(rng, "RSNorm", "vector")
         ops = gen_history(rng, length, algo, "RSNorm") + [["act", rng.randrange(1000)]]
         ops += [["restore", hows[0]], ["act", rng.randrange(1000)], ["learn", rng.randrange(1000)]]
         if not quick or rng.random() < 0.5:
             ops += [["restore", hows[1]], ["act", rng.randrange(1000)]]
-        cases.append((algo, "vector", None, "RSNorm", rng.randrange(1 << 20), ops))
+        cases.append((algo, "vector", None, wspec, rng.randrange(1 << 20), ops))
     if quick:       # one random non-vector family per run
         for _ in range(2):
             algo = rng.choice(A.ALGOS)
@@ -767,6 +863,222 @@ def report(chk: Check, case, res) -> None:
                       f"model={res['model'][d]!r}; property oracle holds on this case", replay, no_input=True)
 
 
+# ------------------------------------------------------------------------------------ helper bodies (direct suite)
+HELPER_CASES = [("DQN", "vector", None), ("RainbowDQN", "vector", None), ("DDPG", "vector", True), ("TD3", "vector", True),
+                ("PPO", "vector", True), ("NeuralUCB", "vector", None), ("NeuralTS", "vector", None),
+                ("DDPG", "dict", True), ("PPO", "dict", True), ("CQN", "image", None), ("MADDPG", "vector", None)]
+
+
+def _mods(net):
+    if isinstance(net, dict):
+        net = list(net.values())
+    return [getattr(m, "_orig_mod", m) for m in (net if isinstance(net, (list, tuple)) else [net])]
+
+
+def oracle_detached_keys(m) -> list[str]:
+    """independent of `get_detached_tensors`: every tensor the walker reaches minus what `state_dict()` lists"""
+    listed = set(m.state_dict().keys())
+    return [k for k in walker.module_tensors(m).keys() if k not in listed]
+
+
+def stamp(agent, base: int) -> dict:
+    """every tensor of every network (registered or not) gets a distinct constant; returns {path: value}"""
+    import agents as A
+    vals, i, seen = {}, 0, {}
+    with torch.no_grad():
+        for name, net in sorted(A.networks_of(agent).items()):
+            for mi, m in enumerate(_mods(net)):
+                for key, t in walker.module_tensors(m).items():
+                    if not t.is_floating_point() or t.numel() == 0:
+                        continue
+                    cell = walker.tensor_cell(t)          # one storage reached under two names is stamped once
+                    if cell not in seen:
+                        i += 1
+                        seen[cell] = float(base + i) / 64.0
+                        t.copy_(torch.full_like(t, seen[cell]))
+                    vals[f"{name}[{mi}].{key}"] = seen[cell]
+    return vals
+
+
+def read_stamps(agent) -> dict:
+    import agents as A
+    out = {}
+    for name, net in sorted(A.networks_of(agent).items()):
+        for mi, m in enumerate(_mods(net)):
+            for key, t in walker.module_tensors(m).items():
+                if t.is_floating_point() and t.numel():
+                    f = t.detach().flatten()
+                    out[f"{name}[{mi}].{key}"] = float(f[0]) if f.numel() and bool((f == f[0]).all()) else "mixed"
+    return out
+
+
+def helper_case(algo, fam, share, seed) -> list[str]:
+    """(ii) names collected = independent walk minus state-dict keys, per module; (i) stamp every tensor with a
+    distinct value, save, restore on both paths, read every tensor back; the helper pair on module level"""
+    import agents as A
+    from agilerl.utils.algo_utils import get_detached_tensors, load_detached_tensors
+    problems = []
+    agent = A.build(algo, fam, seed=seed, share_encoders=share)
+    n_det = 0
+    for name, net in sorted(A.networks_of(agent).items()):
+        for mi, m in enumerate(_mods(net)):
+            got = list(get_detached_tensors(m).keys())
+            want = oracle_detached_keys(m)
+            n_det += len(want)
+            if sorted(got) != sorted(want):
+                problems.append(f"detached-names: {name}[{mi}] get_detached_tensors lists {sorted(set(got) - set(want))} extra, "
+                                f"misses {sorted(set(want) - set(got))} (tensors outside state_dict() by an independent walk)")
+            if set(got) & set(m.state_dict().keys()):
+                problems.append(f"detached-names: {name}[{mi}] collects registered tensors {sorted(set(got) & set(m.state_dict().keys()))}")
+    want_vals = stamp(agent, 1000)
+    with tempfile.TemporaryDirectory(prefix="c07h_") as tmp:
+        path = os.path.join(tmp, "a.pt")
+        agent.save_checkpoint(path)
+        stamp(agent, 500000)                       # the original moves on: the file must not follow
+        new = type(agent).load(path, device="cpu")
+        other = A.build(algo, fam, seed=seed + 17, share_encoders=share)
+        stamp(other, 900000)
+        other.load_checkpoint(path)
+    for how, ag in (("load()", new), ("load_checkpoint()", other)):
+        got_vals = read_stamps(ag)
+        bad = [(k, want_vals[k], got_vals.get(k)) for k in want_vals if got_vals.get(k) != want_vals[k]]
+        if bad:
+            k, w, g = bad[0]
+            det = " (a tensor no state_dict() lists)" if k.split("].", 1)[1] in oracle_all_detached(ag) else ""
+            problems.append(f"stamped-roundtrip: after {how} tensor {k}{det} holds {g}, saved {w} ({len(bad)} of {len(want_vals)} differ)")
+    # module level: the helper pair alone, from a stamped module into a differently stamped twin
+    twin = A.build(algo, fam, seed=seed + 5, share_encoders=share)
+    stamp(twin, 7000)
+    a_nets, t_nets = A.networks_of(new), A.networks_of(twin)
+    for name in sorted(a_nets):
+        for mi, (ma, mt) in enumerate(zip(_mods(a_nets[name]), _mods(t_nets[name]))):
+            det = get_detached_tensors(ma)
+            load_detached_tensors(mt, det)
+            back = get_detached_tensors(mt)
+            for k, v in det.items():
+                if k not in back or not torch.equal(back[k], v):
+                    problems.append(f"helper-pair: {name}[{mi}].{k} not written back by load_detached_tensors")
+                    break
+    return problems, n_det
+
+
+def oracle_all_detached(agent) -> set:
+    import agents as A
+    out = set()
+    for _, net in A.networks_of(agent).items():
+        for m in _mods(net):
+            out |= set(oracle_detached_keys(m))
+    return out
+
+
+def synthetic_helper_cases(rng: random.Random) -> list[str]:
+    """the rules of Model/HeapCkpt.lean `Mod` on hand-made modules and key sets (expected values computed here,
+    independently of the helpers)"""
+    from agilerl.utils.algo_utils import get_detached_tensors, load_detached_tensors, remove_compile_prefix
+    problems = []
+
+    class Leaf(torch.nn.Module):
+        def __init__(self, k):
+            super().__init__()
+            self.lin = torch.nn.Linear(2, 2)
+            self.plain = torch.full((3,), float(k))          # a tensor attribute in no state dict
+            self.register_buffer("buf", torch.full((2,), float(k) + 0.5))
+            self.note = "not a tensor"
+
+    class Mid(torch.nn.Module):
+        def __init__(self, k):
+            super().__init__()
+            self.leaf = Leaf(k + 1)
+            self.inner = torch.nn.ModuleDict({"a": Leaf(k + 2)})
+            self.top = torch.full((1,), float(k))
+
+    class Root(torch.nn.Module):
+        def __init__(self, k):
+            super().__init__()
+            self.mid = Mid(k)
+            self.head = torch.nn.Linear(2, 1)
+
+    k = rng.randrange(1, 50)
+    src, dst = Root(k), Root(k + 100)
+    # swap a parameter for a plain tensor two levels down, as TensorDict.to_module does
+    w = src.mid.leaf.lin.weight.detach().clone() + 1.0
+    del src.mid.leaf.lin._parameters["weight"]
+    src.mid.leaf.lin.__dict__["weight"] = w
+    want = {"mid.top", "mid.leaf.plain", "mid.inner.a.plain", "mid.leaf.lin.weight"}
+    got = get_detached_tensors(src)
+    if set(got.keys()) != want:
+        problems.append(f"synthetic-nested: get_detached_tensors lists {sorted(got.keys())}, expected {sorted(want)}")
+    if set(got.keys()) != set(oracle_detached_keys(src)):
+        problems.append("synthetic-nested: get_detached_tensors differs from the independent walk")
+    load_detached_tensors(dst, got)            # dst still has `weight` as a registered parameter: getattr finds it
+    for key in sorted(want & set(got.keys())):
+        pre, _, name = key.rpartition(".")
+        cur = getattr(dst.get_submodule(pre), name)
+        if not torch.equal(cur.detach(), got[key]):
+            problems.append(f"synthetic-nested: {key} not written back (holds {cur.flatten()[:2].tolist()})")
+    if torch.equal(dst.mid.leaf.buf, src.mid.leaf.buf) or torch.equal(dst.head.weight, src.head.weight):
+        problems.append("synthetic-nested: load_detached_tensors touched a tensor the state dict lists")
+    # missing / extra / wrong shape: skipped; missing sub-module: AttributeError; None / {}: nothing
+    before = {n: t.detach().clone() for n, t in walker.module_tensors(dst).items()}
+    load_detached_tensors(dst, {"mid.top": torch.zeros(4), "mid.nothing": torch.zeros(1), "mid.leaf.note": torch.zeros(1)})
+    load_detached_tensors(dst, None)
+    load_detached_tensors(dst, {})
+    after = walker.module_tensors(dst)
+    if any(not torch.equal(before[n], after[n].detach()) for n in before):
+        problems.append("synthetic-skip: an entry with another shape / without a tensor target changed the module")
+    try:
+        load_detached_tensors(dst, {"nowhere.x": torch.zeros(1)})
+        problems.append("synthetic-skip: a key whose sub-module does not exist did not raise AttributeError")
+    except AttributeError:
+        pass
+    # remove_compile_prefix: `_orig_mod.` stripped exactly once, other keys kept, order and values kept
+    keys = [f"{rng.choice(['enc', 'head_net', 'a.b'])}.{rng.choice(['weight', 'bias'])}{i}" for i in range(rng.randrange(2, 6))]
+    comp = OrderedDict((f"_orig_mod.{kk}", i) for i, kk in enumerate(keys))
+    out = remove_compile_prefix(comp)
+    if list(out.items()) != [(kk, i) for i, kk in enumerate(keys)]:
+        problems.append(f"compile-prefix: {list(comp)} -> {list(out)}, expected {keys}")
+    plain = OrderedDict((kk, i) for i, kk in enumerate(keys))
+    out = remove_compile_prefix(plain)
+    if list(out.items()) != list(plain.items()):
+        problems.append(f"compile-prefix: keys without the prefix changed: {list(plain)} -> {list(out)}")
+    nested = OrderedDict([("_orig_mod._orig_mod.w", 1), ("_orig_mod.x._orig_mod", 2)])
+    out = remove_compile_prefix(nested)
+    if list(out.items()) != [("_orig_mod.w", 1), ("x._orig_mod", 2)]:
+        problems.append(f"compile-prefix: only the FIRST component is stripped, got {list(out)}")
+    return problems
+
+
+def run_helpers(chk: Check) -> None:
+    cases = list(HELPER_CASES)
+    if chk.tier == "quick":
+        fixed = [c for c in cases if c[:2] in (("DDPG", "vector"), ("RainbowDQN", "vector"), ("NeuralUCB", "vector"), ("PPO", "dict"))]
+        rest = [c for c in cases if c not in fixed]
+        cases = fixed + chk.rng.sample(rest, 2)
+    import agents as A
+    n = 0
+    for algo, fam, share in cases:
+        if not A.supported(algo, fam) or A.known_broken(algo, fam):
+            continue
+        seed = chk.rng.randrange(1 << 16)
+        problems, n_det = helper_case(algo, fam, share, seed)
+        n += 1
+        chk.case(["helpers", algo, fam, share, seed], nontrivial=n_det > 0,
+                 sample={"suite": "helpers", "algo": algo, "family": fam, "share_encoders": share, "detached": n_det},
+                 tags=["helpers", f"algo-{algo}", f"obs-{fam}"] + (["detached"] if n_det else []))
+        if problems:
+            chk.violation(f"helpers {algo}/{fam}/share={share}: {problems[0]}",
+                          {"suite": "helpers", "algo": algo, "family": fam, "share": share, "seed": seed,
+                           "problems": problems[:8], "theorems": chk.gate.get("theorems")})
+    sseed = chk.rng.randrange(1 << 16)
+    problems = synthetic_helper_cases(random.Random(sseed))
+    n += 1
+    chk.case(["helpers", "synthetic", sseed], nontrivial=True, sample={"suite": "helpers", "synthetic": sseed}, tags=["helpers", "synthetic"])
+    if problems:
+        chk.violation(f"helpers synthetic: {problems[0]}", {"suite": "helpers", "synthetic": sseed, "problems": problems[:8]})
+    chk.suite("checkpoint-helpers", n, 0)
+
+
+
 def kind_of(problem: str) -> str:
     return problem.split(":")[0]
 
@@ -793,11 +1105,12 @@ def run(chk: Check) -> None:
         nontriv = any(o[0] in ("mutate", "learn") for o in ops)
         chk.case([algo, fam, share, wrapper, seed, ops], nontrivial=nontriv,
                  sample={"algo": algo, "family": fam, "share_encoders": share, "wrapper": wrapper, "ops": ops[:6]},
-                 tags=res["tags"] + [f"algo-{algo}", f"obs-{fam}"] + ([f"wrapper-{wrapper}"] if wrapper else []))
+                 tags=res["tags"] + [f"algo-{algo}", f"obs-{fam}"] + ([f"wrapper-{wrapper_spec(wrapper)[0]}"] + (["wrapper-options"] if ":" in wrapper else []) if wrapper else []))
         if res["problems"] or res["diff"] is not None:
             ndiff += res["diff"] is not None
             report(chk, case, res)
     chk.suite("checkpoint-roundtrips", len(cases), ndiff)
+    run_helpers(chk)
     if chk.tier == "thorough":
         selftest(chk)
 
@@ -812,8 +1125,22 @@ def pre_gate(chk: Check) -> None:
     the failing history."""
     import common
     import py2lean_ckpt
+    import py2lean_ckpthelp
+    # both generated files are imported by Props.C07: bring the second one up to date BEFORE the first gate builds
+    # (a stale file from a run on another tree would otherwise be blamed on the first translator)
+    try:
+        text, _ = py2lean_ckpthelp.translate(common.REPO)
+        py2lean_ckpthelp.write_if_changed(text, common.LEAN_DIR / "Gen" / "CkptHelpGen.lean")
+    except py2lean_ckpthelp.Unsupported:
+        pass                      # reported by its own gate below
     common.translation_gate(chk, py2lean_ckpt, "Gen/CkptGen.lean", ["Gen.CkptGen", "Proofs.CkptGenEq", "Props.C07"],
                             "checkpoint rule table, load phases and wrapper merge order")
+    # the helper BODIES (get_detached_tensors / load_detached_tensors / remove_compile_prefix): generated = model
+    # (Proofs/CkptHelpGenEq.lean), C07_source_translation_helpers_* (Props/C07.lean); the `checkpoint-helpers`
+    # suite supplies the failing module when an equality stops checking
+    common.translation_gate(chk, py2lean_ckpthelp, "Gen/CkptHelpGen.lean",
+                            ["Gen.CkptHelpGen", "Proofs.CkptHelpGenEq", "Props.C07"],
+                            "get_detached_tensors / load_detached_tensors / remove_compile_prefix")
 
 
 # ------------------------------------------------------------------------------------ self-test
@@ -880,6 +1207,8 @@ def selftest(chk: Check) -> None:
         base.get_checkpoint_dict = orig_gcd
     # 4. target network not restored (re-synchronised with the online network instead)
     orig_lc, orig_load = base.EvolvableAlgorithm.load_checkpoint, base.EvolvableAlgorithm.load
+    raw_load = base.EvolvableAlgorithm.__dict__["load"]      # the classmethod object itself (restoring the BOUND
+    #                                                          method would pin `cls` to the abstract base class)
 
     def lc(self, path):
         orig_lc(self, path)
@@ -895,7 +1224,7 @@ def selftest(chk: Check) -> None:
         expect("target network re-synchronised instead of restored")
     finally:
         base.EvolvableAlgorithm.load_checkpoint = orig_lc
-        base.EvolvableAlgorithm.load = orig_load
+        base.EvolvableAlgorithm.load = raw_load
     # 5. detached tensors (critic's copy of the shared encoder) not written back
     if hasattr(base, "load_detached_tensors"):
         orig_ldt = base.load_detached_tensors
@@ -907,12 +1236,49 @@ def selftest(chk: Check) -> None:
             caught.append("detached tensors not restored")
         finally:
             base.load_detached_tensors = orig_ldt
+    # 6. a constructor option of the wrapper's statistics object lost in pickling (non-default epsilon)
+    import agilerl.wrappers.agent as W
+    wcase = ("DQN", "vector", None, 'RSNorm:{"epsilon": 0.25}', 7, [["act", 3], ["learn", 1]])
+    if not run_case(chk, wcase)["problems"]:
+        W.RunningMeanStd.__getstate__ = lambda self: {k: v for k, v in self.__dict__.items() if k != "epsilon"}
+        W.RunningMeanStd.__setstate__ = lambda self, st: (self.__init__(), self.__dict__.update(st))[1]
+        try:
+            if not run_case(chk, wcase)["problems"]:
+                raise InfraError("C07 self-test: seeded fault 'wrapper statistics option lost in pickling' was not noticed")
+            caught.append("wrapper statistics option lost in pickling")
+        finally:
+            del W.RunningMeanStd.__getstate__
+            del W.RunningMeanStd.__setstate__
+    # 7. helper body: only the root module's tensors collected (no recursion into sub-modules)
+    if hasattr(base, "get_detached_tensors"):
+        orig_gdt = base.get_detached_tensors
+
+        def root_only(module):
+            return {k: v for k, v in orig_gdt(module).items() if "." not in k}
+        base.get_detached_tensors = root_only
+        try:
+            if not helper_case("DDPG", "vector", True, 3)[0]:
+                raise InfraError("C07 self-test: seeded fault 'detached tensors of sub-modules not collected' was not noticed "
+                                 "by the checkpoint-helpers suite")
+            caught.append("detached tensors of sub-modules not collected")
+        finally:
+            base.get_detached_tensors = orig_gdt
     chk.notes.append("self-test: detected " + "; ".join(caught))
 
 
 def replay(chk: Check, path: str) -> int:
     c = json.loads(open(path).read())
     c = c.get("replay", c)
+    if c.get("suite") == "helpers":
+        if "synthetic" in c:
+            problems = synthetic_helper_cases(random.Random(c["synthetic"]))
+        else:
+            problems, _ = helper_case(c["algo"], c["family"], c.get("share"), c["seed"])
+        print(json.dumps({"problems": problems}, indent=1, default=str))
+        if problems:
+            print(f"VIOLATION property=C07 replay={path}")
+            return 1
+        return 0
     res = run_case(chk, (c["algo"], c["family"], c.get("share"), c.get("wrapper"), c["seed"], c["ops"]))
     print(json.dumps({k: res[k] for k in ("diff", "problems", "impl", "model", "unrepaired_match")}, indent=1, default=str))
     if res["problems"]:
